@@ -7,6 +7,8 @@ package c07
 import (
 	"bytes"
 	"fmt"
+	"math"
+	"sort"
 	"testing"
 
 	"github.com/canopy-network/canopy/lib"
@@ -233,7 +235,8 @@ func runC07b(t *rapid.T, rec *ev.Rec) {
 		ht := x.a.Height()
 		for k := rapid.IntRange(2, 7).Draw(t, "nTx"); k > 0; k-- {
 			for _, tx := range x.w.GenTx(t, ht, c07bKinds) {
-				_ = x.a.AddTx(tx.Bytes)
+				// gossip: every node's mempool sees the transaction
+				_, _, _ = x.a.AddTx(tx.Bytes), x.n.AddTx(tx.Bytes), x.tw.AddTx(tx.Bytes)
 			}
 		}
 		p, e := x.a.Produce()
@@ -290,6 +293,7 @@ func runC07b(t *rapid.T, rec *ev.Rec) {
 				}
 			}
 			pending := holds
+			poolBefore := poolOf(x.n)
 			var err lib.ErrorI
 			switch mode {
 			case "validate":
@@ -333,6 +337,10 @@ func runC07b(t *rapid.T, rec *ev.Rec) {
 				for _, tx := range bblk.Transactions {
 					rejectedTxs = append(rejectedTxs, tx)
 				}
+			}
+			// a rejected proposal / peer block must not cost the node its pending transactions
+			if got := poolOf(x.n); got != poolBefore {
+				x.fatalf("VIOLATION C07: N's mempool changed while it REJECTED the %s offered via %s at height %d:\nbefore %s\nafter  %s", kind, mode, ht, poolBefore, got)
 			}
 			if pending {
 				// committed state must be untouched; the pending validated proposal is still committable (checked below by the good commit)
@@ -420,6 +428,11 @@ func syncAccepts(kind string) bool {
 // compare: N and its twin are indistinguishable
 func (x *world7) compare(when string, working bool) {
 	x.compareCommitted(when, true)
+	if !x.skipCerts { // (after a block accepted while syncing N did no mempool maintenance: equal again after the next live block)
+		if pn, pt := poolOf(x.n), poolOf(x.tw); pn != pt {
+			x.fatalf("VIOLATION C07: N's mempool differs from its twin's %s:\nN    %s\ntwin %s", when, pn, pt)
+		}
+	}
 	if !working {
 		return
 	}
@@ -482,4 +495,15 @@ func diffScan(a, b map[string][]byte) string {
 		}
 	}
 	return fmt.Sprintf("%d differing keys\n%s", n, out)
+}
+
+// poolOf renders a node's mempool content (sorted short transaction hashes)
+func poolOf(n *nodesim.Node) string {
+	n.Sim.Activate(n)
+	var hs []string
+	for _, tx := range n.C.Mempool.GetTransactions(math.MaxUint64) {
+		hs = append(hs, crypto.HashString(tx)[:8])
+	}
+	sort.Strings(hs)
+	return fmt.Sprintf("%d%v", len(hs), hs)
 }
